@@ -10,6 +10,8 @@ pub assume_specification [char::is_numeric] (c: char) -> (r: bool) ensures r == 
 pub assume_specification [char::is_control] (c: char) -> (r: bool) ensures r == u_control(c);
 pub assume_specification [char::is_alphabetic] (c: char) -> (r: bool) ensures r == u_alphabetic(c);
 pub assume_specification [char::is_uppercase] (c: char) -> (r: bool) ensures r == u_uppercase(c);
+// char::is_ascii_control is exact: U+0000..U+001F and U+007F
+pub assume_specification [char::is_ascii_control] (c: &char) -> (r: bool) ensures r == ((*c as u32) < 0x20 || (*c as u32) == 0x7f);
 
 // (vstd already specifies char::is_whitespace under a name that cannot be referred to here: the call is
 // renamed to this trait method, R13)
